@@ -162,6 +162,8 @@ def prime(root, s, own_text):
     if not s["out"] or s["prior"] == "absent":
         return
     p = os.path.normpath(os.path.join(root, s["out"]))
+    if os.path.isdir(p) or os.path.isfile(os.path.dirname(p)):
+        return          # -out names a directory, or lies under a regular file: nothing can be put there
     if s["prior"] == "dirnonempty":
         os.makedirs(p, exist_ok=True)
         open(os.path.join(p, "keep.txt"), "w").write("x")
@@ -415,7 +417,13 @@ def _run(cdir, seed, tier, log):
                     i, s = q.get_nowait()
                 except queue.Empty:
                     return
-                obs[i] = one(moq, base, s, own_cache)
+                try:
+                    obs[i] = one(moq, base, s, own_cache)
+                except Exception as ex:    # a scenario the harness itself cannot set up: reported, not fatal
+                    import traceback
+                    obs[i] = dict(id=s["id"], s=s, rc=None, stdout_len=0, stderr="HARNESS: " + repr(ex) + traceback.format_exc()[-300:],
+                                  changed=[], verdicts={}, file=None, stdout="", wall=0, prior_kind=s["prior"], prior_exists=False,
+                                  harness_error=True)
 
         ts = [threading.Thread(target=work) for _ in range(12)]
         [t.start() for t in ts]
@@ -455,14 +463,14 @@ def _run(cdir, seed, tier, log):
             s = o["s"]
             # without -rm, own previous output in the source package must not break regeneration
             if s["prior"] == "own" and not s["rm"] and s["out"] and s["out"].startswith("svc/") and s["out"].count("/") == 1 \
-                    and s["srcdir"] == "svc" and all(re.match(r"^(Good|Other|Gen)(:\w+)?$", a) and not a.endswith(":1x") for a in s["args"]) \
+                    and s["srcdir"] == "svc" and s["args"] and all(re.match(r"^(Good|Other|Gen)(:\w+)?$", a) and not a.endswith(":1x") for a in s["args"]) \
                     and o["rc"] != 0:
                 res["violations"].append({"id": o["id"] + "-regen", "props": ["C15"],
                                           "what": "regeneration over moq's own output fails: " + o["stderr"][:200], "scenario": s})
             for k, v in o["verdicts"].items():
                 res["violations"].append({"id": o["id"], "props": k.split("+"), "what": v, "scenario": s,
                                           "cmd": "moq " + " ".join(moq_cmd(s)), "rc": o["rc"], "stderr": o["stderr"]})
-        res["coverage"] = {"cli_scenarios": len(S), "cli_failures_observed": sum(1 for o in obs if o["rc"] == 1),
+        res["coverage"] = {"cli_scenarios": len(S), "harness_errors": [o["stderr"][:300] for o in obs if o.get("harness_error")][:5], "cli_failures_observed": sum(1 for o in obs if o["rc"] == 1),
                            "cli_successes_observed": sum(1 for o in obs if o["rc"] == 0),
                            "fixed_point_pairs": nfix, "rm_groups": sum(1 for k in groups if k[4]),
                            "error_kinds": sorted({(o["stderr"].splitlines() or [""])[0].split(":")[0][:40] for o in obs if o["rc"] == 1})}
